@@ -349,7 +349,7 @@ def oracle_sphere(fn, rng, n=400):
         if it % 4 == 0:
             # close pairs (arcseconds apart), also at large RA / |dec|
             ra1, dec1 = rng.choice([rng.uniform(0, 360), 350.0, 359.9]), rng.choice([rng.uniform(-85, 85), 80.0, -84.0])
-            sep = 10 ** rng.uniform(-4.5, -2)
+            sep = 10 ** (rng.uniform(-9, -2) if fn == 'gcd' else rng.uniform(-4.5, -2))      # the bearing of a 1e-9 deg pair is below the resolution of its float coordinates
             ang = rng.uniform(0, 2 * math.pi)
             ra2, dec2 = ra1 + sep * math.sin(ang) / max(0.05, math.cos(math.radians(dec1))), dec1 + sep * math.cos(ang)
         if fn == 'gcd':
@@ -357,7 +357,7 @@ def oracle_sphere(fn, rng, n=400):
             p, q = vec(ra1, dec1), vec(ra2, dec2)
             cr = (p[1] * q[2] - p[2] * q[1], p[2] * q[0] - p[0] * q[2], p[0] * q[1] - p[1] * q[0])
             want = math.degrees(math.atan2(math.sqrt(sum(x * x for x in cr)), sum(a * b for a, b in zip(p, q))))
-            if abs(g - want) > 1e-7 + 1e-6 * want or abs(g - float(at.gcd(ra2, dec2, ra1, dec1))) > 1e-9 or not (0 <= g <= 180):
+            if abs(g - want) > 1e-9 + 1e-12 * want or abs(g - float(at.gcd(ra2, dec2, ra1, dec1))) > 1e-9 or not (0 <= g <= 180) or (g == 0 and (ra1, dec1) != (ra2, dec2) and want > 1e-12):
                 return True, 'vector-formula', 'gcd(%r,%r,%r,%r)=%r expected %r' % (ra1, dec1, ra2, dec2, g, want)
         elif fn == 'bear':
             b = float(at.bear(ra1, dec1, ra2, dec2))
@@ -397,7 +397,17 @@ def run(rep):
     rep.assume('floats modelled as reals except where stated', 'real angle_tools source loaded from REPO_ROOT on every run')
     run_sexa(rep, at)
     run_sphere(rep, at, rep.seed)
-    rep.not_decided += ['triangle inequality of gcd', '1e-9 deg agreement near zero/antipodal separations', 'array arguments (same element-wise numpy code path)']
+    # floating-point level (invisible to the real-arithmetic kernels): the real functions against the vector formula on
+    # random pairs, a quarter of them 1e-9 .. 1e-2 deg apart, tolerance 1e-9 deg as stated
+    rep.kernel('K-replay-oracle', functions=[F + ':gcd', F + ':bear', F + ':translate'], bounds='400 random pairs per function (100 of them close pairs down to 1e-9 deg), concrete floats',
+               assumes=['concrete executions: rounding behaviour is outside the real-arithmetic kernels'])
+    for fn in ('gcd', 'bear', 'translate'):
+        bad, cls, detail = oracle_sphere(fn, random.Random(rep.seed + 17))
+        rep.validated_runs(400)
+        if bad:
+            rep.finding('C17/K-%s/%s' % (fn, cls), dict(fn=fn, detail=detail, seed=rep.seed + 17), detail, kernel='K-replay-oracle')
+    rep.end_kernel()
+    rep.not_decided += ['triangle inequality of gcd', '1e-9 deg agreement near zero/antipodal separations (floating point: replay oracle only)', 'array arguments (same element-wise numpy code path)']
 
 
 def replay(w):
@@ -405,7 +415,7 @@ def replay(w):
     if 'kind' in wit:
         bad, cls, detail = oracle_sexa(wit['kind'], float(wit['x']))
         return bad, 'dec2%s(%r) -> %s [%s]' % (wit['kind'], wit['x'], detail, cls)
-    bad, cls, detail = oracle_sphere(wit['fn'], random.Random(12345))
+    bad, cls, detail = oracle_sphere(wit['fn'], random.Random(int(wit.get('seed', 12345))))
     return bad, str(detail)
 
 
